@@ -1,5 +1,7 @@
 //! Generated wallet histories and their interpreter, shared by C01, C06, C15 and C02.
 
+use std::collections::BTreeMap;
+
 use proptest::prelude::*;
 use vcore::{vensure, Fail};
 
@@ -20,6 +22,9 @@ pub enum Op {
     AddBusy { n: u16, pool_sel: u8, wallet_every: u8 },
     /// tell the wallet the chain tip (model tip minus `behind`, clipped)
     UpdateTip { behind: u8 },
+    /// the documented start of a sync round: hand the wallet the true roots of every shard (2^16-leaf subtree) of
+    /// one pool that the current branch has completed (`put_*_subtree_roots`), then the chain tip
+    PutSubtreeRoots { pool: u8 },
     /// scan [from, from+len) where from = base+1 + pick(sel, tip-base)
     Scan { sel: u32, len: u16 },
     /// scan the first unscanned gap from its start or its end, `chunk` blocks
@@ -39,6 +44,7 @@ pub fn arb_op(na: u8, nf: u8, iw: bool, long: bool) -> impl Strategy<Value = Op>
         5 => proptest::collection::vec(arb_block(na, nf, iw, 3, 4), 1..6).prop_map(Op::AddBlocks),
         if long { 3 } else { 1 } => (if long { 1u16..130 } else { 1u16..12 }).prop_map(Op::AddEmpty),
         2 => (0u8..3).prop_map(|behind| Op::UpdateTip { behind }),
+        3 => (0u8..3).prop_map(|pool| Op::PutSubtreeRoots { pool }),
         6 => (any::<u32>(), if long { 1u16..160 } else { 1u16..12 }).prop_map(|(sel, len)| Op::Scan { sel, len }),
         5 => (any::<u32>(), any::<bool>(), if long { 1u16..160 } else { 1u16..10 }).prop_map(|(which, from_end, chunk)| Op::ScanGap { which, from_end, chunk }),
         2 => (0u8..8, any::<bool>()).prop_map(|(depth, reorg)| Op::Truncate { depth, reorg }),
@@ -109,8 +115,17 @@ pub fn arb_case(max_ops: usize, p_long: u32) -> impl Strategy<Value = Case> {
                     v
                 }),
         ];
-        (prefix, proptest::collection::vec(chunk, 3..max_ops)).prop_map(move |(mut pre, chunks)| {
-            let ops: Vec<Op> = chunks.into_iter().flatten().collect();
+        // pools whose tree starts within a few leaves of a shard boundary (see spec::arb_base_size)
+        let near: Vec<u8> = world.base.as_ref().map_or(vec![], |b| (0u8..3).filter(|p| b.sizes[*p as usize] % (1 << 16) >= (1 << 16) - 14).collect());
+        (prefix, proptest::collection::vec(chunk, 3..max_ops), any::<u32>(), any::<u32>(), 0u8..4).prop_map(move |(mut pre, chunks, at, which, coin)| {
+            let mut ops: Vec<Op> = chunks.into_iter().flatten().collect();
+            if !near.is_empty() && coin != 0 {
+                // make sure the subtree-root hand-over happens somewhere in the second half of such a history
+                let pool = near[vcore::pick_index(which, near.len())];
+                let lo = ops.len() / 2;
+                let pos = lo + vcore::pick_index(at, ops.len() - lo + 1);
+                ops.insert(pos, Op::PutSubtreeRoots { pool });
+            }
             pre.extend(ops);
             Case { world: world.clone(), long, ops: pre, final_chunk }
         })
@@ -131,6 +146,7 @@ pub struct Flags {
     pub truncations: u32,
     pub scans: u32,
     pub expiry_probes: u32,
+    pub subtree_roots_put: u32,
 }
 
 /// maximal unscanned ranges [start, end] on the current branch
@@ -168,6 +184,14 @@ pub struct Hist {
     /// set once a reorganising rewind has cut through a subtree that an earlier frontier insertion had
     /// annotated (the trigger of the known shardtree finding, see known_findings.json / C06)
     pub tainted_stale_annotation: bool,
+    /// the wallet is synced the documented way (`put_*_subtree_roots` before every `update_chain_tip`) from the first
+    /// `PutSubtreeRoots` operation on
+    pub uses_subtree_roots: bool,
+    /// (pool, shard index) -> (end height, root) of every subtree root handed to the wallet so far
+    pub roots_given: BTreeMap<(usize, u64), (u32, [u8; 32])>,
+    /// set once a reorganising rewind has orphaned the block that completed a subtree whose root the wallet had
+    /// already been given (the trigger of the known finding `stale-subtree-root-after-reorg`, see C06)
+    pub tainted_stale_subtree_root: bool,
 }
 
 /// `true` iff truncating a tree to `t` leaves cuts strictly inside one of the ommer subtrees of a
@@ -198,13 +222,29 @@ pub fn splits_frontier_ommer(t: u32, s: u32) -> bool {
 
 /// Signature used for the known shardtree stale-annotation finding (see known_findings.json, C06).
 pub const SIG_TREE_CONFLICT: &str = "tree-conflict-after-rewind";
+/// Signature used for the known stale-subtree-root finding (see known_findings.json, C06).
+pub const SIG_STALE_SUBTREE_ROOT: &str = "stale-subtree-root-after-reorg";
 
 impl Hist {
     pub fn new(spec: &WorldSpec, file_backed: bool) -> Self {
         let world = World::new(spec);
         let chain = Chain::new(&world);
         let w = SimWallet::new(&world, &chain, file_backed);
-        Hist { world, chain, w, ledger: Ledger::default(), flags: Flags::default(), max_scanned_start: None, frontier_sizes: vec![], tainted_stale_annotation: false }
+        // the birthday frontier (inserted when the accounts are created) counts as an inserted frontier
+        let frontier_sizes = if chain.base_sizes == [0, 0, 0] { vec![] } else { vec![chain.base_sizes] };
+        Hist { world, chain, w, ledger: Ledger::default(), flags: Flags::default(), max_scanned_start: None, frontier_sizes, tainted_stale_annotation: false, uses_subtree_roots: false, roots_given: BTreeMap::new(), tainted_stale_subtree_root: false }
+    }
+
+    /// The known finding (see known_findings.json, C06) whose exact trigger this history has hit, if any: what the
+    /// wallet does afterwards is outside what the checks assert.
+    pub fn tainted(&self) -> Option<&'static str> {
+        if self.tainted_stale_annotation {
+            Some("stale-annotation-after-reorg")
+        } else if self.tainted_stale_subtree_root {
+            Some("stale-subtree-root-after-reorg")
+        } else {
+            None
+        }
     }
 
     pub fn base(&self) -> u32 {
@@ -215,10 +255,35 @@ impl Hist {
         self.ledger.scanned.iter().map(|b| self.chain.blocks[*b].height).max()
     }
 
+    /// One sync-round start as documented in `data_api::chain`: (once the wallet uses subtree roots) the roots of every
+    /// shard the chain has completed up to `tip`, for all three pools and always from shard 0 as `sync.rs` does, then
+    /// `update_chain_tip(tip)`.
+    pub fn announce_tip(&mut self, tip: u32, step: &str) -> Result<(), Fail> {
+        if self.uses_subtree_roots {
+            for pool in 0..3 {
+                let done: Vec<_> = self.chain.complete_shards(pool).into_iter().filter(|s| s.1 <= tip).collect();
+                if !done.is_empty() {
+                    let stale = self.tainted_stale_subtree_root;
+                    self.w.put_subtree_roots(pool, &done).map_err(|e| {
+                        // Known finding (C06): a stale root of a subtree whose completing block was reorganised away
+                        // makes every later insertion of the new root fail with Conflict.
+                        let sig = if stale && e.contains("Conflict") { SIG_STALE_SUBTREE_ROOT } else { "put-subtree-roots-failed" };
+                        Fail::new(sig, format!("{step}: pool {pool}, shards {:?}: {e}", done.iter().map(|d| (d.0, d.1)).collect::<Vec<_>>()))
+                    })?;
+                    self.flags.subtree_roots_put += done.len() as u32;
+                    for d in &done {
+                        self.roots_given.insert((pool, d.0), (d.1, d.2));
+                    }
+                }
+            }
+        }
+        self.w.update_tip(tip).map_err(|e| Fail::new("update-tip-failed", format!("{step}: {e}")))
+    }
+
     pub fn ensure_tip_known(&mut self, step: &str) -> Result<(), Fail> {
         let tip = self.chain.tip_height();
         if self.w.chain_height().map_or(true, |t| t < tip) {
-            self.w.update_tip(tip).map_err(|e| Fail::new("update-tip-failed", format!("{step}: {e}")))?;
+            self.announce_tip(tip, step)?;
         }
         Ok(())
     }
@@ -308,7 +373,15 @@ impl Hist {
                 if tip > base {
                     // never below what the wallet has scanned (the tip only moves back by truncation)
                     let h = tip.saturating_sub(*behind as u32).max(self.max_scanned().unwrap_or(base)).max(base + 1);
-                    self.w.update_tip(h).map_err(|e| Fail::new("update-tip-failed", format!("{step}: {e}")))?;
+                    self.announce_tip(h, step)?;
+                }
+            }
+            Op::PutSubtreeRoots { pool: _ } => {
+                // from here on the wallet is synced the documented way; start a round right away
+                self.uses_subtree_roots = true;
+                let tip = self.chain.tip_height();
+                if tip > base {
+                    self.announce_tip(tip, step)?;
                 }
             }
             Op::Scan { sel, len } => {
@@ -350,7 +423,7 @@ impl Hist {
                         while self.chain.tip_height() < target {
                             self.chain.add_block(&self.world, &BlockSpec::default());
                         }
-                        self.w.update_tip(target).map_err(|e| Fail::new("update-tip-failed", format!("{step}: {e}")))?;
+                        self.announce_tip(target, step)?;
                         self.flags.expiry_probes += 1;
                     }
                 }
@@ -379,6 +452,9 @@ impl Hist {
                             if self.frontier_sizes.iter().any(|s| (0..3).any(|p| splits_frontier_ommer(t[p], s[p]))) {
                                 self.tainted_stale_annotation = true;
                             }
+                            if self.roots_given.values().any(|(end, _)| *end > got) {
+                                self.tainted_stale_subtree_root = true;
+                            }
                         }
                         self.ledger.truncate(&self.chain, got);
                         if *reorg {
@@ -404,7 +480,7 @@ impl Hist {
     pub fn scan_all(&mut self, chunk: u16) -> Result<(), Fail> {
         let tip = self.chain.tip_height();
         if tip > self.base() {
-            self.w.update_tip(tip).map_err(|e| Fail::new("update-tip-failed", format!("final: {e}")))?;
+            self.announce_tip(tip, "final")?;
             let mut guard = 0;
             loop {
                 let g = gaps(&self.chain, &self.ledger);
